@@ -61,7 +61,7 @@ claim(
 claim(
     "C01",
     "other",
-    "Decides, by abstract interpretation of the kernel on symbolic fields over a stencil domain, the structural skeleton that makes the scheme conservative: curl_E/curl_H equal the Levi-Civita curl with forward/backward one-cell differences (mutual adjoints), each derivative carries the metric of its own axis and stencil and the backward metric is the dual width with the first cell replicated, halos are one cell wide and wrap exactly on periodic axes, Bloch ghosts are phase/conj(phase)=exp(+-ikL), PEC/PMC zero exactly the tangential components on their slab at the end of their own half step, update_E/update_H equal the semi-implicit normal forms on every isotropic/diagonal x lossy/lossless path with a contractive loss factor, and forward() steps E then H with H_prev taken before. The Bloch ghost rule covers all three components and, on a resolved (stretched) grid, requires both ghost layers to use the period edges[N] - edges[0]. The energy identity itself, the full-tensor averaging and round-off are not decided.",
+    "Decides, by abstract interpretation of the kernel on symbolic fields over a stencil domain, the structural skeleton that makes the scheme conservative: curl_E/curl_H equal the Levi-Civita curl with forward/backward one-cell differences (mutual adjoints), each derivative carries the metric of its own axis and stencil and the backward metric is the dual width with the first cell replicated, halos are one cell wide and wrap exactly on periodic axes, Bloch ghosts are phase/conj(phase)=exp(+-ikL), PEC/PMC zero exactly the tangential components on their slab at the end of their own half step, update_E/update_H equal the semi-implicit normal forms on every isotropic/diagonal x lossy/lossless path with a contractive loss factor, and forward() steps E then H with H_prev taken before. The Bloch ghost rule covers all three components and, on a resolved (stretched) grid, requires both ghost layers to use the period edges[N] - edges[0]. The summation-by-parts identity behind exact conservation is decided on concrete cells: with curl_E / curl_H interpreted on a 3x2x2 grid (uniform and stretched; all-periodic, mixed periodic / truncated) over free field and cell-width symbols, sum V_H H . curl_E(E) == sum V_E E . curl_H(H) coefficient by coefficient, V the primal / dual Yee volumes with the dual width wrapping on periodic axes (R1.8). The full-tensor averaging, lossy energy decay rates and round-off are not decided.",
     TB + "; sa/ndarr.py stencil/array model (slices, pad, roll, concatenate, at[].set/add as indicator algebra); oracle = definition of the discrete curl and Schneider's semi-implicit loss factor",
     "abstract interpretation over a stencil (shifted-atom) array domain; polynomial identity against the Levi-Civita oracle",
     "DESIGN.md §5 C01",
